@@ -196,3 +196,28 @@ pub fn run_cleanups() {
         let _ = std::fs::remove_dir_all(p);
     }
 }
+
+/// Holds a value of the code under test; if the thread is unwinding when it goes out of scope
+/// the value is leaked instead of dropped (its destructor may panic again - e.g. on a poisoned
+/// lock - and a panic inside a destructor during unwinding aborts the process).
+pub struct LeakOnPanic<T>(pub Option<T>);
+
+impl<T> LeakOnPanic<T> {
+    pub fn new(t: T) -> Self {
+        LeakOnPanic(Some(t))
+    }
+    pub fn get(&mut self) -> &mut T {
+        self.0.as_mut().expect("present")
+    }
+    pub fn take(&mut self) -> Option<T> {
+        self.0.take()
+    }
+}
+
+impl<T> Drop for LeakOnPanic<T> {
+    fn drop(&mut self) {
+        if std::thread::panicking() {
+            std::mem::forget(self.0.take());
+        }
+    }
+}
